@@ -410,6 +410,18 @@ def skip_reports(check: Check, repo: Repo, rule: str = "SKIP-REPORTS") -> None:
                             if isinstance(i2, ast.If) and preds & {call_name(x) for x in ast.walk(i2.test) if isinstance(x, ast.Call)} and any(
                                     isinstance(x, ast.Call) and last_attr(x) == "report_error" for s in i2.body for x in ast.walk(s)):
                                 ok, why = True, f"the same kind test ({sorted(preds)[0]}) is reported in {other.name}"
+                if not ok and any(isinstance(x, ast.Call) and isinstance(x.func, ast.Attribute) and x.func.attr in ("append", "add", "setdefault", "update", "extend")
+                                  for s_ in body[:idx] for x in ast.walk(s_)):
+                    # the guard-clause spelling of `if valid: record(element) else: report`: the element is handled, not skipped
+                    ok, why = True, "the element is recorded before the loop moves on"
+                if not ok and isinstance(block, ast.If) and c in block.body and idx == 0:
+                    t_ = block.test
+                    absent = (isinstance(t_, ast.UnaryOp) and isinstance(t_.op, ast.Not) and isinstance(t_.operand, ast.Name)) or (
+                        isinstance(t_, ast.Compare) and len(t_.ops) == 1 and isinstance(t_.ops[0], ast.Is) and isinstance(t_.left, ast.Name)
+                        and isinstance(t_.comparators[0], ast.Constant) and t_.comparators[0].value is None)
+                    if absent:
+                        # `if not x: continue` == `if x: <rest of the body>`: there is no element to validate
+                        ok, why = True, f"`{unparse(t_)}`: nothing to validate in this iteration"
                 check.ob(rule, c, f"continue in {fn.name} (line +{c.lineno - fn.lineno})", ok,
                          why if ok else
                          "skips the element without reporting anything: a violation on it is never detected")
